@@ -49,7 +49,7 @@ C16_OPS = ["cadd", "csub", "cneg", "cconj", "creal", "cimag", "ceq", "cneq", "cl
 PROPS = {
     "C16": dict(ops=C16_OPS, types=FLOAT_TYPES, design="5.17"),
     "C09": dict(ops=C09_OPS, types=ALL_TYPES, design="5.10"),
-    "C05": dict(ops=C05_OPS, quick_ops=C05_QUICK, types=ALL_TYPES, design="5.6", optional=True),
+    "C05": dict(ops=C05_OPS, quick_ops=C05_QUICK, types=ALL_TYPES, quick_types=["i8", "u16", "i32", "u64", "f32", "f64"], design="5.6", optional=True),
     "C06": dict(ops=C06_OPS, types=ALL_TYPES, design="5.7"),
     "C04": dict(ops=C04_OPS, types=ALL_TYPES, design="5.5"),
     "C02": dict(ops=C02_OPS, types=FLOAT_TYPES, design="5.3"),
@@ -250,7 +250,7 @@ def run_value_property(pid, tier, seed, only_archs=None, only_ops=None, only_typ
     if only_archs:
         archs = only_archs
     ops = only_ops or (cfg.get("quick_ops") if tier == "quick" and cfg.get("quick_ops") else cfg["ops"])
-    types = only_types or cfg["types"]
+    types = only_types or (cfg.get("quick_types") if tier == "quick" and cfg.get("quick_types") else cfg["types"])
     cases = [(o, t, a) for o in ops for t in types if t in entries.OPS[o][2] for a in archs]
     flt = quick_pre_filter(pid) if tier == "quick" else thorough_filter(pid)
     rep = check.run_cases(pid, cases, tier, seed, props_filter=flt, post_filter=quick_post_filter(pid) if tier == "quick" else None,
